@@ -2,6 +2,7 @@ SPECIFICATION Spec
 CONSTANTS
   MaxDepth = 1
   MaxRows = 2
+  MaxRows2 = 1
   NVals = 2
   WithEmpty = FALSE
   DevNoDedup = TRUE
